@@ -148,24 +148,26 @@ class _SolveIVP(torch.autograd.Function):
         # to connect the graph or not
 
         def pfunc2(t, y, tensor_params):
+            # the dynamics are differentiated w.r.t. fresh copies of the tensors,
+            # so that the derivatives are partial derivatives even if the
+            # tensors depend on each other outside the dynamics
             if not grad_enabled:
-                # if graph is not constructed, then use the default tensor_params
+                # if graph is not constructed, the copies are detached
+                tensor_params_copy = [p.detach().requires_grad_() for p in tensor_params]
                 ycopy = y.detach().requires_grad_()  # [yi.detach().requires_grad_() for yi in y]
                 tcopy = t.detach().requires_grad_()
-                f = pfcn(tcopy, ycopy, *params)
-                return f, tcopy, ycopy, tensor_params
             else:
                 # if graph is constructed, then use the clone of the tensor params
                 # so that infinite loop of backward can be avoided
                 tensor_params_copy = [p.clone().requires_grad_() for p in tensor_params]
                 ycopy = y.clone().requires_grad_()
                 tcopy = t.clone().requires_grad_()
-                allparams_copy = param_sep.reconstruct_params(tensor_params_copy)
-                params_copy = allparams_copy[:nparams]
-                objparams_copy = allparams_copy[nparams:]
-                with pfcn.useobjparams(objparams_copy):
-                    f = pfcn(tcopy, ycopy, *params_copy)
-                return f, tcopy, ycopy, tensor_params_copy
+            allparams_copy = param_sep.reconstruct_params(tensor_params_copy)
+            params_copy = allparams_copy[:nparams]
+            objparams_copy = allparams_copy[nparams:]
+            with pfcn.useobjparams(objparams_copy):
+                f = pfcn(tcopy, ycopy, *params_copy)
+            return f, tcopy, ycopy, tensor_params_copy
 
         # slices and indices definitions on the augmented states
         y_index = 0
